@@ -907,74 +907,104 @@ def enc_op(op):
     raise ValueError(op)
 
 
-def iso_history(ck, ops, plats_factory, lines, pending, matcher, probe=True):
+def ops_desc(ops):
+    return {"ops": [list(o[:2]) + [list(x) if isinstance(x, tuple) else x for x in o[2:]] for o in ops]}
+
+
+def iso_eval(ops, plats_factory, probe=True):
+    """run one history on the real objects and evaluate isolation after every step (never consults the model).
+    returns dict(viols=[(kind, what, details)], slots, plats, ok)"""
     plats = plats_factory()
-    desc = {"ops": [list(o[:2]) + [list(x) if isinstance(x, tuple) else x for x in o[2:]] for o in ops]}
-    modelled = all(o[0] in MODELLED for o in ops)
+    viols = []
     with Community(plats):
         g0 = global_snap(plats)
         slots, snaps = {}, {}
-        applied = []
-        ok = True
         for n, op in enumerate(ops):
             i = op[1]
             did = iso_apply(op, slots, plats)
-            applied.append(op)
             g1 = global_snap(plats)
-            case = {"kind": "isolation", **desc, "failed_at_step": n}
             for key in g0:
                 if g1[key] != g0[key]:
-                    ck.violation({**case, "changed": key, "before": repr(g0[key])[:300], "after": repr(g1[key])[:300]},
-                                 f"operation {op[0]} on connection {i} changed the platform definition {key}", matcher)
-                    ok = False
+                    viols.append(("definition-changed", f"operation {op[0]} on connection {i} changed the platform definition {key}",
+                                  {"failed_at_step": n, "changed": key, "before": repr(g0[key])[:300], "after": repr(g1[key])[:300]}))
             new = {j: tables_snap(c) for j, c in slots.items()}
-            for j, s in snaps.items():
-                if j != i and new[j] != s:
-                    changed = [k for k in s if new[j][k] != s[k]]
-                    ck.violation({**case, "other_connection": j, "changed": changed},
-                                 f"operation {op[0]} on connection {i} changed connection {j} ({','.join(changed)})", matcher)
-                    ok = False
+            for j, sn in snaps.items():
+                if j != i and new[j] != sn:
+                    changed = [k for k in sn if new[j][k] != sn[k]]
+                    viols.append(("connection-changed", f"operation {op[0]} on connection {i} changed connection {j} ({','.join(changed)})",
+                                  {"failed_at_step": n, "other_connection": j, "changed": changed}))
             if op[0] == "c" and did:
                 via, platform, is_async = op[2]
                 want = (g0["PRIVS:" + platform], g0["FWC:" + platform]) if platform in CORE else \
                     (privs_snap(plats[platform]["defaults"]["privilege_levels"]), tuple(plats[platform]["defaults"].get("failed_when_contains") or ()))
                 got = (new[i]["privilege_levels"], new[i]["failed_when_contains"])
                 if got != want:
-                    ck.violation({**case, "got": repr(got)[:300], "want": repr(want)[:300]},
-                                 "a freshly constructed connection does not start from the platform definition", matcher)
-                    ok = False
+                    viols.append(("not-pristine", "a freshly constructed connection does not start from the platform definition",
+                                  {"failed_at_step": n, "got": repr(got)[:300], "want": repr(want)[:300]}))
             # no mutable object is shared between two owners; when one is, mutate through it to exhibit the visible change
-            owners = {**def_ids(plats), **{f"conn{j}": owned_ids(c) for j, c in slots.items()}}
-            names = sorted(owners)
-            for a, b in itertools.combinations(names, 2):
-                if ok and probe and owners[a] & owners[b]:
-                    j = int((a if a.startswith("conn") else b)[4:])
-                    lv = next(iter(getattr(slots[j], "privilege_levels", {}) or {"exec": 0}))
-                    before = len(ck.violations) + sum(ck.known_hits.values())
-                    iso_history(ck, list(ops[:n + 1]) + [("e", j, lv, "^probe$", "probe"), ("fa", j, "probe"), ("t", j)],
-                                plats_factory, [], [], matcher, probe=False)
-                    if len(ck.violations) + sum(ck.known_hits.values()) == before:
-                        ck.violation({**case, "owners": [a, b]}, f"{a} and {b} share a mutable object", matcher)
-                    ok = False
+            if not viols:
+                owners = {**def_ids(plats), **{f"conn{j}": owned_ids(c) for j, c in slots.items()}}
+                for a, b in itertools.combinations(sorted(owners), 2):
+                    if owners[a] & owners[b]:
+                        if probe:
+                            j = int((a if a.startswith("conn") else b)[4:])
+                            lv = next(iter(getattr(slots[j], "privilege_levels", {}) or {"exec": 0}))
+                            ext = list(ops[:n + 1]) + [("e", j, lv, "^probe$", "probe"), ("fa", j, "probe"), ("t", j)]
+                            r = iso_eval(ext, plats_factory, probe=False)
+                            if r["viols"]:
+                                return {**r, "ops": ext}
+                        viols.append(("shared-object", f"{a} and {b} share a mutable object", {"failed_at_step": n, "owners": [a, b]}))
+                        break
             snaps = new
-            if not ok:
+            if viols:
                 break
-        nconn = len({o[1] for o in ops if o[0] == "c"})
-        nmut = sum(1 for o in ops if o[0] != "c")
-        ck.case(("iso", repr(ops)), nontrivial=nconn >= 2 and nmut >= 1, sample=desc,
-                tags=("kind=isolation", f"len={min(len(ops), 12)}", f"conns={nconn}", "modelled" if modelled else "oracle-only")
-                + tuple(sorted({"op=" + o[0] for o in ops})))
-        if modelled and ok:
-            extra = "&".join(f"{hx(n)}~{enc_tables(privs_snap(plats[n]['defaults']['privilege_levels']), tuple(plats[n]['defaults'].get('failed_when_contains') or ()))}"
-                             for n in ISO_COMMUNITY)
-            lines.append(f"heap {extra} {';'.join(enc_op(o) for o in ops) if ops else '.'}")
-            real_defs = [(p, g1_priv, g1_fwc) for p, g1_priv, g1_fwc in
-                         [(p, global_snap(plats)["PRIVS:" + p], global_snap(plats)["FWC:" + p]) for p in sorted(CORE)]]
-            real_defs += [(n, privs_snap(plats[n]["defaults"]["privilege_levels"]), tuple(plats[n]["defaults"].get("failed_when_contains") or ()))
-                          for n in ISO_COMMUNITY]
-            real_conns = {j: (type(c).__name__ if iso_platform_of(ops, j) in CORE else iso_platform_of(ops, j),
-                              privs_snap(c.privilege_levels), tuple(c.failed_when_contains)) for j, c in slots.items()}
-            pending.append(("heap", desc, real_defs, real_conns))
+        g_last = global_snap(plats)
+    return {"viols": viols, "slots": slots, "plats": plats, "g": g_last, "ops": list(ops)}
+
+
+def shrink_iso(ops, kind, plats_factory, budget=60):
+    cur = list(ops)
+    i = len(cur) - 1
+    while i >= 0 and budget > 0:
+        trial = cur[:i] + cur[i + 1:]
+        budget -= 1
+        try:
+            if any(k == kind for k, _, _ in iso_eval(trial, plats_factory, probe=False)["viols"]):
+                cur = trial
+        except Exception:
+            pass
+        i -= 1
+    return cur
+
+
+def iso_history(ck, ops, plats_factory, lines, pending, matcher, probe=True):
+    r = iso_eval(ops, plats_factory, probe)
+    modelled = all(o[0] in MODELLED for o in ops)
+    nconn = len({o[1] for o in ops if o[0] == "c"})
+    nmut = sum(1 for o in ops if o[0] != "c")
+    desc = ops_desc(ops)
+    ck.case(("iso", repr(ops)), nontrivial=nconn >= 2 and nmut >= 1, sample=desc,
+            tags=("kind=isolation", f"len={min(len(ops), 12)}", f"conns={nconn}", "modelled" if modelled else "oracle-only")
+            + tuple(sorted({"op=" + o[0] for o in ops})))
+    if r["viols"]:
+        if not ck.violations:
+            small = shrink_iso(r["ops"], r["viols"][0][0], plats_factory)
+            r2 = iso_eval(small, plats_factory, probe=False)
+            if r2["viols"]:
+                r = r2
+        for kind, what, more in r["viols"]:
+            ck.violation({"kind": "isolation", **ops_desc(r["ops"]), **more}, what, matcher)
+        return
+    if modelled:
+        plats, slots, g = r["plats"], r["slots"], r["g"]
+        comm = [(n, privs_snap(plats[n]["defaults"]["privilege_levels"]), tuple(plats[n]["defaults"].get("failed_when_contains") or ()))
+                for n in ISO_COMMUNITY]
+        extra = "&".join(f"{hx(n)}~{enc_tables(pv, fw)}" for n, pv, fw in comm)
+        lines.append(f"heap {extra} {';'.join(enc_op(o) for o in ops) if ops else '.'}")
+        real_defs = [(p, g["PRIVS:" + p], g["FWC:" + p]) for p in sorted(CORE)] + comm
+        real_conns = {j: (type(c).__name__ if iso_platform_of(ops, j) in CORE else iso_platform_of(ops, j),
+                          privs_snap(c.privilege_levels), tuple(c.failed_when_contains)) for j, c in slots.items()}
+        pending.append(("heap", desc, real_defs, real_conns))
 
 
 def iso_platform_of(ops, j):
